@@ -40,7 +40,7 @@ def spell(name, kind, off):
     return '%s[%d]' % (base, off)
 
 
-SPELLINGS = [None, 'space-before-bracket', 'comment-with-terms', 'comment-lines', 'blank-inside-brackets', 'function-calls']
+SPELLINGS = [None, 'space-before-bracket', 'comment-with-terms', 'comment-lines', 'blank-inside-brackets'] + ['function-calls:%d' % k for k in range(0, 9, 2)]
 FUNCTION_NAMES = ['f', 'g1', 'F', 'fn', 'np.f', 'h_', 'np.sub.f2', 'exp', 'Log']  # names of functions are never variables, however short
 
 
@@ -48,6 +48,8 @@ def script_of(prog, spelling=None):
     """The same program in another spelling: a blank before a right-hand-side index bracket; trailing comments / comment
     lines that contain terms, brackets, quotes and further hashes (none of which is part of the script)."""
     counter = [0]
+    used = {l[0] for l, _ in prog} | {m[0] for _, rhs in prog for m in rhs}
+    helpers = [f for f in FUNCTION_NAMES if f not in used and f.split('.')[0] not in used] or ['fn']   # (a name is a function or a variable, not both: Appendix B)
 
     def rhs_spell(m):
         t = spell(*m)
@@ -56,9 +58,9 @@ def script_of(prog, spelling=None):
         if spelling == 'blank-inside-brackets':
             # a blank on one side only, inside braces / angle brackets / the index bracket
             return t.replace('}', ' }').replace('<', '< ').replace(']', ' ]')
-        if spelling == 'function-calls':
+        if spelling and spelling.startswith('function-calls'):
             counter[0] += 1
-            return '%s(%s)' % (FUNCTION_NAMES[counter[0] % len(FUNCTION_NAMES)], t)
+            return '%s(%s)' % (helpers[(int(spelling.split(':')[1]) + counter[0]) % len(helpers)], t)
         return t
     lines = ['%s = %s' % (spell(l[0], 'v', l[1]), ' + '.join(rhs_spell(m) for m in rhs)) for l, rhs in prog]
     if spelling == 'comment-with-terms':
@@ -135,7 +137,7 @@ def run_case(case):
         out.append(('spurious-rejection:%s' % got, 'accepted', got, 'a consistent script was rejected: %s' % script))
         return out, 'spurious'
     (endo, exo, par, err), lags, leads = ref[1], ref[2], ref[3]
-    has_label = any(isinstance(m[2], str) for _, rhs in prog for m in rhs) or case.get('spelling') == 'function-calls'  # (undefined helper functions: the model is classified, not solved)
+    has_label = any(isinstance(m[2], str) for _, rhs in prog for m in rhs) or str(case.get('spelling')).startswith('function-calls')  # (undefined helper functions: the model is classified, not solved)
     solved_for = set()
     options = list(OPTION_LATTICE if case.get('full_options') else OPTION_SMALL)
     options += [dict(o, with_type_hints=False) for o in OPTION_SMALL]   # the same, from the template without type hints
@@ -169,6 +171,26 @@ def run_case(case):
                         break
                 except Exception as e:
                     out.append(('default-range:short-span:exception', 'empty range', repr(e)[:160], 'default solve() on a span of %d period(s) with LAGS=%d, LEADS=%d' % (n, Model.LAGS, Model.LEADS)))
+                    break
+            if out:
+                break
+            # spans shorter still (not even the default bounds exist): whatever the call does - an empty result or an error -
+            # no period is solved and nothing is read from the other end of the span
+            for n in range(1, max(Model.LAGS, Model.LEADS) + 1):
+                m = Model(range(50, 50 + n))
+                m.values = 1.0
+                before = [m.status.tolist(), m.iterations.tolist(), m.values.tolist()]
+                try:
+                    res = m.solve(max_iter=2, failures='ignore', errors='ignore')
+                    visited = list(res[0])
+                except Exception:
+                    visited = []
+                try:
+                    visited += [lab for _, lab in m.iter_periods()]   # the default range itself: empty (or refused), never wrapped round
+                except Exception:
+                    pass
+                if visited or [m.status.tolist(), m.iterations.tolist(), m.values.tolist()] != before:
+                    out.append(('default-range:very-short-span', 'no period solved, nothing changed', [visited, m.status.tolist()], 'default solve() on a span of %d period(s) with LAGS=%d, LEADS=%d solved something' % (n, Model.LAGS, Model.LEADS)))
                     break
             if out:
                 break
